@@ -61,5 +61,5 @@ AuthorityOK == \A i \in 1..Len(chain) : Resolvable(chain[i].ref) => SameAuthorit
 Emit == done => PrintT(<<"REPLAY", ToJson([kind |-> "loop", seed |-> 1,
    req |-> [method |-> "GET", url |-> U0, body |-> [kind |-> "empty", len |-> 0], headers |-> <<>>, params |-> <<>>],
    settings |-> [follow |-> follow, maxRedir |-> maxr, proxy |-> [disabled |-> FALSE, http |-> (IF viaProxy THEN ProxyUrl ELSE NoProxy), https |-> NoProxy, noproxy |-> <<>>]],
-   nodes |-> nodes, connect |-> [status |-> 200, valid |-> TRUE]])>>)
+   nodes |-> nodes, connect |-> [status |-> 200, valid |-> TRUE], slowRedirectBody |-> TRUE])>>)
 =============================================================================
